@@ -259,6 +259,8 @@ def case_eot_year(mon, y):
     lim = 17.5 * 60 if 1800 <= y <= 2200 else 25 * 60
     prev = None
     pprev = None
+    pm = None
+    ncross = 0
     eq = None
     try:
         if -1000 <= y <= 3000:
@@ -272,7 +274,7 @@ def case_eot_year(mon, y):
             m, s = Sun.equation_of_time(Epoch(jd))
         except Exception as ex:
             mon.dev("eot.range", {"jde": jd, "raised": repr(ex)})
-            prev = pprev = None
+            prev = pprev = pm = None
             continue
         if eq is not None and abs(jd - eq) <= 3.0:
             mon.cls("within-3d-of-march-equinox", ("eot", jd), [jd, m, s])
@@ -284,7 +286,7 @@ def case_eot_year(mon, y):
             val = math.copysign(abs(m) * 60.0 + s, m)
         elif prev is None:
             # sign not recoverable and nothing to compare with: skip the day
-            pprev = None
+            pprev = pm = None
             continue
         else:
             pred = prev if pprev is None else 2.0 * prev - pprev
@@ -296,7 +298,60 @@ def case_eot_year(mon, y):
             mon.stat("eot_daily_change_s", abs(val - prev), [jd, m, s])
             mon.check("eot.daily-change", abs(val - prev) < 45.0,
                       {"jde": jd, "eot_s": val, "previous_day_s": prev})
-        pprev, prev = prev, val
+        if prev is not None and m != 0 and pm not in (None, 0) and m != pm \
+                and ncross < 6:
+            ncross += 1
+            minute_crossing(mon, jd - 1.0, pm, jd, m)
+        pprev, prev, pm = prev, val, m
+
+
+def minute_crossing(mon, ja, ma, jb, mb):
+    """The equation of time comes as (whole minutes, seconds): where the
+    whole minutes change, the value itself must not jump.  The instant of the
+    change is bisected down to adjacent floats on the library's own minutes
+    field, and the value is compared across it and a few floats either way."""
+    from pymeeus.Epoch import Epoch
+    from pymeeus.Sun import Sun
+
+    def ev(j):
+        mm, ss = Sun.equation_of_time(Epoch(j))
+        return mm, (math.copysign(abs(mm) * 60.0 + ss, mm) if mm != 0
+                    else None)
+    lo, hi = ja, jb
+    try:
+        for _ in range(70):
+            mid = 0.5 * (lo + hi)
+            if mid <= lo or mid >= hi:
+                break
+            mm, _v = ev(mid)
+            if mm == ma:
+                lo = mid
+            elif mm == mb:
+                hi = mid
+            else:
+                # more than one whole minute changes in this day: narrow to
+                # the first change
+                hi, mb = mid, mm
+        pts = [lo, hi]
+        for k in (1, 3, 10, 40):
+            a, b = lo, hi
+            for _ in range(k):
+                a = math.nextafter(a, 0.0)
+                b = math.nextafter(b, 1e9)
+            pts += [a, b]
+        vals = [(j, ev(j)[1]) for j in sorted(pts)]
+    except Exception as ex:
+        mon.dev("eot.continuous-at-minute-crossing",
+                {"between": [ja, jb], "raised": repr(ex)})
+        return
+    mon.evals += len(vals)
+    mon.cls("eot-whole-minute-crossing", ("cross", lo, hi), [lo, hi, ma, mb])
+    good = [v for _j, v in vals if v is not None]
+    mon.check("eot.continuous-at-minute-crossing",
+              len(good) >= 2 and max(good) - min(good) <= 0.01,
+              {"adjacent_floats_at_the_change": [lo, hi],
+               "minutes_before_after": [ma, mb],
+               "values_s": vals[:10]})
 
 
 # ------------------------------------------------------------- sunrise/set
